@@ -4,7 +4,7 @@ namespace Golib.Gen.C19
 
 def extractorOK : Bool := true
 
-def limiterFields : List String := ["c:chanstruct{}", "w:sync.WaitGroup", "panicHandler:func(any)", "mu:sync.Mutex", "idle:chanstruct{}"]
+def limiterFields : List String := ["c:chanstruct{}", "w:sync.WaitGroup", "panicHandler:func(any)"]
 
 def newLimiterBody : List String := ["if(limit<1){limit=3}", "return &Limiter{c:make(chanstruct{},limit),}"]
 
@@ -16,6 +16,6 @@ def doneBody : List String := ["l.w.Done()", "recv l.c"]
 
 def recoverBody : List String := ["defer{if(p:=recover();p!=nil){if(panicFn!=nil){panicFn(p)}else{var buf; buf.Grow(…); buf.WriteString(…); stack(…); fmt.Println(…)}}; if(len(cleanups)==0){return}; var index; defer{if(p:=recover();p!=nil){s:=fmt.Sprintf(…); if(panicFn!=nil){panicFn(s)}else{fmt.Println(…)}}}; range(i,cleanup:cleanups){index=i; cleanup()}}", "fn()"]
 
-def waitUntimedTail : String := "recv idle"
+def waitUntimedTail : String := "l.w.Wait()"
 
 end Golib.Gen.C19
